@@ -830,3 +830,12 @@ Proof.
   eexists; eexists. split; [reflexivity|]. simpl. split; [reflexivity|]. split; [reflexivity|].
   rewrite succs_rgraph. reflexivity.
 Qed.
+
+
+(* the module imports what every generated fragment imports (by construction of module_imports_of; the tie
+   compares it with the import statements of fragments.py) *)
+Lemma module_imports_cover imps generated n l x :
+  In n generated -> lookup n imps = Some l -> In x l -> In x (module_imports_of imps generated).
+Proof.
+  intros Hn Hl Hx. unfold module_imports_of. apply in_flat_map. exists n. split; [exact Hn|]. rewrite Hl. exact Hx.
+Qed.
